@@ -322,7 +322,7 @@ func checkC14(c *core.Ctx) {
 	} else {
 		shapes = enum.Shapes(4, []int{1, 2, 3})
 	}
-	shapes = append(shapes, []int{5}, []int{33}, []int{2, 7}, []int{8, 2}, []int{4, 5, 2})
+	shapes = append(shapes, []int{5}, []int{33}, []int{2, 7}, []int{8, 2}, []int{4, 5, 2}, []int{16}, []int{600}, []int{2, 1000}, []int{1030, 2})
 	for _, s := range shapes {
 		for _, a := range actConfigs(len(s)) {
 			s, a := s, a
